@@ -338,7 +338,10 @@ func DirectiveOtherState(l *lexer) stateFn {
 		l.emit(StartDirective)
 		return rootState // one directive per %: what follows is ordinary text, even if it spells a keyword
 	}
-	return rootState
+	// not a directive of yaccgo: without this the % stayed in the pending text
+	// and `%expect` became a token named "%expect"
+	l.error("unknown directive")
+	return nil
 }
 
 func CodeQuoteBegin(l *lexer) stateFn {
